@@ -87,6 +87,16 @@ class Ranges:
             return t
         res = None
         for pt, k, s in ds:
+            if k == 'call' and (s.get('callee') or {}).get('name') in ('from', 'into') and len(s.get('args') or []) == 1 \
+                    and ty_range(self.operand_ty(s['args'][0])) is not None and t is not None:
+                # a lossless integer conversion (`i64::from(x)`): the value is the argument's
+                src = self.of_operand(s['args'][0], stack + (l,))
+                st_ = ty_range(self.operand_ty(s['args'][0]))
+                r = src if src is not None else st_
+                if r is not None and t[0] <= r[0] and r[1] <= t[1]:
+                    res = r if res is None else (min(res[0], r[0]), max(res[1], r[1]))
+                    continue
+                return t
             if k != 'assign':
                 # call of a crate-local function: the (context-insensitive) range of what it returns
                 c = s.get('callee') if k == 'call' else None
